@@ -59,6 +59,7 @@ type GenCfg struct {
 	MaxOps        int
 	Watch         bool
 	LifecycleFail bool // failures while handling OnKill / OnKilled
+	LateSpawn     bool // actors that spawn a child while they are terminating
 }
 
 var allDecisions = []string{"restart", "grestart", "stop", "gstop", "resume", "escalate"}
@@ -130,6 +131,9 @@ func GenSpec(t *rapid.T, c GenCfg, name string) Spec {
 			}
 			sp.FailPrelaunch = at
 		}
+	}
+	if c.LateSpawn && rapid.IntRange(0, 5).Draw(t, "lateSpawn") == 0 {
+		sp.LateSpawn = rapid.IntRange(1, 2).Draw(t, "lateSpawns")
 	}
 	if c.LifecycleFail && rapid.IntRange(0, 6).Draw(t, "lifeFail") == 0 {
 		switch rapid.IntRange(0, 2).Draw(t, "lifeFailKind") {
